@@ -42,16 +42,17 @@ def gen_history(rng, maxlen, stats):
             if size == 0:
                 alog = gen_alog(rng)        # fresh allocation (or zero-size again): any alignment
             new = gen_size(rng, alog)
-            if size != 0 and new == 0 and rng.random() > 0.04:
-                new = 1 + gen_size(rng, alog)     # respect the documented precondition (mostly)
+            if size != 0 and new == 0:
+                # the property's domain: `cabi_realloc` documents "non-zero old_len requires non-zero new_len"
+                # (rt/mod.rs `debug_assert_ne!`), and no canonical-ABI host resizes a block to zero
+                new = 1 + gen_size(rng, alog)
             kind = ("zero-zero" if size == 0 and new == 0 else "alloc" if size == 0 else
-                    "shrink-to-zero" if new == 0 else "grow" if new > size else "shrink" if new < size else "same")
+                    "grow" if new > size else "shrink" if new < size else "same")
             stats["r:" + kind] += 1
             stats["align:2^%d" % alog] += 1
             stats["size:" + ("0" if new == 0 else "2^%d" % (new.bit_length() - 1))] += 1
             ops.append(f"r:{s}:{alog}:{new}")
-            if kind != "shrink-to-zero":
-                slots[s] = (new, alog)
+            slots[s] = (new, alog)
         elif r < 0.74:
             s = rng.randrange(NSLOTS) if rng.random() < 0.3 else rng.randrange(3)
             stats["d:" + ("zero" if slots[s][0] == 0 else "block")] += 1
@@ -72,9 +73,17 @@ def gen_history(rng, maxlen, stats):
     return " ".join(ops)
 
 
+def gen_outside(rng):
+    """A separate stream OUTSIDE the documented precondition: a valid history followed by one request that
+    resizes a non-empty block to zero.  What the code does then is recorded in the evidence, never judged."""
+    alog = gen_alog(rng)
+    size = 1 + gen_size(rng, alog)
+    return f"r:0:{alog}:{size} r:0:{alog}:0"
+
+
 def run(c):
     c.rule = ("request histories over 8 host slots and a growing list of Cleanups: cabi_realloc with (old ptr, old size) "
-              "taken from the slot's earlier result, alignment 2^0..2^16 (kept for a non-empty slot), new size 0..2^20 "
+              "taken from the slot's earlier result, alignment 2^0..2^16 (kept for a non-empty slot), new size 0..2^20 (never 0 for a non-empty block: documented precondition) "
               "(edge values, around the alignment, log-uniform); cabi_dealloc of slots; Cleanup new/drop/forget; "
               "non-trivial = the history reallocates a non-empty block at least once; distinct by request text")
     ok = c.lake_build(["Witverif.Props.C24"])
@@ -107,15 +116,22 @@ def run(c):
             classes = sorted({f.split("@")[0] for f in verdict.split(":", 1)[1].split(",")}) if verdict.startswith("spec=fail:") else ["missing"]
             for k in classes:
                 if k == "shrink-to-zero":
-                    c.spec_violation("realloc-shrink-to-zero",
-                                     "cabi_realloc(ptr, old_len > 0, align, 0) does not return a pointer (debug assertion; "
-                                     "realloc-to-zero without it)",
-                                     {"request": r, "impl": o, "verdict": verdict})
+                    # cannot happen: the generator and the corpus stay inside the documented precondition
+                    c.broken.append(("generator produced a request outside the precondition of cabi_realloc", r))
                 else:
                     c.spec_violation("realloc-" + k,
                                      "allocation entry point violates the C24 monitor (null / misaligned / wrong allocator call / "
                                      "contents lost / Cleanup null-iff-zero or freed-once broken)",
                                      {"request": r, "impl": o, "model": m.split("\t")[0], "verdict": verdict})
+        # outside the precondition (recorded, never judged, not part of the correspondence either)
+        outs = [gen_outside(c.rng) for _ in range(200)]
+        oo = run_lines([impl, "realloc"], outs, timeout=120)
+        c.cov["outside_precondition"] = {
+            "what": "cabi_realloc(ptr, old_len > 0, align, 0): outside the precondition the code documents (debug_assert_ne!); "
+                    "outcomes recorded only",
+            "requests": len(outs),
+            "outcomes": dict(collections.Counter(o.split(" ")[1].split(":")[0] if len(o.split(" ")) > 1 else o for o in oo)),
+        }
     else:
         # model unavailable: minimal python transcription of the monitor as the search fallback
         for r, o in zip(reqs, iout):
@@ -130,10 +146,11 @@ def run(c):
     c.cov["input_distribution"] = dict(sorted(stats.items()))
     c.cov["histories"] = {"corpus": ncorpus, "seeded": n, "max_ops": maxlen}
     c.cov["search"] = ("ReallocSpec.stepOk/endOk (Lean, spec side) evaluated on the implementation's observations for every "
-                       "history of this run, including requests outside the documented precondition")
+                       "history of this run (all inside the documented precondition of cabi_realloc)")
     c.assumptions += [
         "the global allocator is a parameter: theorems assume the GlobalAlloc contract (Lawful A); the run uses std's System allocator behind a checking wrapper",
         "allocation failure (null from the allocator) is modelled as abort and not exercised on the real code (handle_alloc_error aborts the process)",
+        "domain: a non-empty block is never resized to zero — the precondition cabi_realloc documents (debug_assert_ne!, `histPre` in the model); canonical-ABI hosts do not issue such a request; a separate stream records (without judging) what the code does there",
         "pointers/sizes are Nat (no usize overflow); alignments are powers of two 2^0..2^16, sizes 0..2^20 as in the property",
         "`cabi_realloc` and `cabi_dealloc` are compiled from the working-tree text cut out by harness/rt-native/build.rs (the item is cfg'd out / a generator template natively); Cleanup and the wrapper are linked/included unchanged",
         "native x86-64 only (pointer width 8)",
